@@ -1,0 +1,40 @@
+//go:build verif
+
+// Contracts for the deductive verifier under /verif (comment-only; never compiled into oxy).
+package collections
+
+// Abstract view of a TTLMap: key -> (value, expiry in epoch seconds), as ghost fields.
+//   vdom[k]  the key is tracked;  vtag/vval[k] the stored interface value;  vexp[k] its expiry second;  vlen = |vdom|
+
+//@ type TTLMap
+//@   immutable capacity mutex
+//@   ghost vdom map[string]bool
+//@   ghost vtag map[string]int
+//@   ghost vval map[string]int
+//@   ghost vexp map[string]int
+//@   ghost vlen int
+
+//@ pred nowsec() = lastclock / 1000000000
+//@ pred live(m *TTLMap, k string) = m.vdom[k] && m.vexp[k] > lastclock / 1000000000
+
+//@ func (*TTLMap).Get
+//@   props C03 C13 C14
+//@   trusted
+//@   readsclock
+//@   requires m != nil
+//@   modifies m.vdom[key], m.vlen
+//@   ensures hit_iff_live: result1 <==> (old(m.vdom[key]) && old(m.vexp[key]) > lastclock / 1000000000)
+//@   ensures hit_value: result1 ==> tagof(result0) == m.vtag[key] && payload(result0) == m.vval[key] && m.vdom[key] && m.vlen == old(m.vlen)
+//@   ensures miss_forgets_only_this_key: !result1 ==> !m.vdom[key] && m.vlen == old(m.vlen) - ite(old(m.vdom[key]), 1, 0)
+
+//@ func (*TTLMap).Set
+//@   props C03 C13 C14
+//@   trusted
+//@   readsclock
+//@   requires m != nil
+//@   modifies TTLMap.vdom, TTLMap.vtag, TTLMap.vval, TTLMap.vexp, m.vlen
+//@   ensures bad_ttl: ttlSeconds <= 0 ==> result != nil && (forall k string :: m.vdom[k] == old(m.vdom[k]) && m.vtag[k] == old(m.vtag[k]) && m.vval[k] == old(m.vval[k]) && m.vexp[k] == old(m.vexp[k]))
+//@   ensures stored: ttlSeconds > 0 ==> result == nil && m.vdom[key] && m.vtag[key] == tagof(value) && m.vval[key] == payload(value) && m.vexp[key] == (lastclock + ttlSeconds * 1000000000) / 1000000000
+//@   ensures no_eviction_within_capacity: ttlSeconds > 0 && (old(m.vdom[key]) || old(m.vlen) < m.capacity) ==> (forall k string :: k != key ==> m.vdom[k] == old(m.vdom[k]) && m.vtag[k] == old(m.vtag[k]) && m.vval[k] == old(m.vval[k]) && m.vexp[k] == old(m.vexp[k]))
+//@   ensures eviction_takes_nearest_expiry: ttlSeconds > 0 && !old(m.vdom[key]) && old(m.vlen) >= m.capacity ==> (exists v string :: v != key && (old(m.vdom[v]) || old(m.vlen) == 0) && !m.vdom[v] && (forall k string :: old(m.vdom[k]) ==> old(m.vexp[v]) <= old(m.vexp[k])) && (forall k string :: k != key && k != v ==> m.vdom[k] == old(m.vdom[k]) && m.vtag[k] == old(m.vtag[k]) && m.vval[k] == old(m.vval[k]) && m.vexp[k] == old(m.vexp[k])))
+//@   ensures other_maps_untouched: forall o *TTLMap, k string :: o != m ==> o.vdom[k] == old(o.vdom[k]) && o.vtag[k] == old(o.vtag[k]) && o.vval[k] == old(o.vval[k]) && o.vexp[k] == old(o.vexp[k])
